@@ -1,2 +1,17 @@
 import Gossamer.Props.C35
 open Gossamer.C35
+#print axioms C35_refines
+#print axioms C35_invariant
+#print axioms C35_refines_counterexample
+#print axioms C35_capacity
+#print axioms C35_recency_order
+#print axioms C35_evicts_lru
+#print axioms C35_race_free
+#print axioms C35_race_free_counterexample
+#print axioms C35_linearizable
+#print axioms C35_mutual_exclusion
+#print axioms Gossamer.Monitor.linearizable
+#print axioms Gossamer.Monitor.no_conflict
+#print axioms Gossamer.Monitor.prefix_consistent
+#print axioms Gossamer.Monitor.disciplined_raceFree
+#print axioms Gossamer.Monitor.raceFree_disciplined
